@@ -1816,3 +1816,144 @@ func rulePageRangeInclusive(c *eng.Ctx) {
 			fmt.Sprintf("PageRange(%d, %d) adds pages {%s} to the selection instead of %d..%d (a one-page range selecting nothing means the whole document)", start, start+span, strings.Join(got, ","), start, start+span))
 	}
 }
+
+// R14.11 [C14]
+func rulePageRangeOverlap(c *eng.Ctx) {
+	const R = "R14.11-PAGE-RANGE-OVERLAP"
+	c.Rule(R, "FilterByPageRange(s, e) selects exactly the chunks whose page span [PageStart, PageEnd] intersects [s, e]: the predicate touches the four numbers only through comparisons, so it is evaluated for every ordering of them (all s<=e, PageStart<=PageEnd over 1..5) and compared with PageEnd >= s && PageStart <= e", 1, 0)
+	name := "rag.(*ChunkCollection).FilterByPageRange"
+	fn := c.P.Func(name)
+	if fn == nil {
+		c.Undec(R, name, token.NoPos, "anchor not found")
+		return
+	}
+	var ints []*ssa.Parameter
+	for _, p := range fn.Params {
+		if bt, ok := p.Type().Underlying().(*types.Basic); ok && bt.Kind() == types.Int {
+			ints = append(ints, p)
+		}
+	}
+	var mc *ssa.MakeClosure
+	eng.Instrs(fn, false, func(in ssa.Instruction) {
+		if m, ok := in.(*ssa.MakeClosure); ok {
+			if sig, ok := m.Fn.(*ssa.Function); ok && sig.Signature.Results().Len() == 1 {
+				mc = m
+			}
+		}
+	})
+	if len(ints) != 2 || mc == nil {
+		c.Undec(R, name, fn.Pos(), "cannot find the two bounds and the predicate closure")
+		return
+	}
+	pred := mc.Fn.(*ssa.Function)
+	bad, undec := "", ""
+	n := 0
+	for s := int64(1); s <= 5 && bad == ""; s++ {
+		for e := s; e <= 5 && bad == ""; e++ {
+			parentLeaf := func(v ssa.Value) (int64, bool) {
+				switch v {
+				case ssa.Value(ints[0]):
+					return s, true
+				case ssa.Value(ints[1]):
+					return e, true
+				}
+				return 0, false
+			}
+			// the values of the captured cells when the closure is made
+			free := map[ssa.Value]int64{}
+			okFree := true
+			for i, b := range mc.Bindings {
+				if i >= len(pred.FreeVars) {
+					break
+				}
+				al, isAl := b.(*ssa.Alloc)
+				if !isAl {
+					if x, unk := eng.EvalAt(fn, parentLeaf, mc, b); !unk && len(x) == 1 {
+						for k := range x {
+							free[pred.FreeVars[i]] = k
+						}
+					}
+					continue
+				}
+				if bt, ok := al.Type().Underlying().(*types.Pointer).Elem().Underlying().(*types.Basic); !ok || bt.Kind() != types.Int {
+					continue
+				}
+				ld := (ssa.Value)(nil)
+				_ = ld
+				// value stored in the cell on the way to the closure
+				var last ssa.Value
+				for _, r := range *al.Referrers() {
+					if st, ok := r.(*ssa.Store); ok && st.Addr == ssa.Value(al) {
+						last = st.Val
+					}
+				}
+				if last == nil {
+					okFree = false
+					continue
+				}
+				x, unk := eng.EvalAt(fn, parentLeaf, mc, last)
+				if unk || len(x) != 1 {
+					okFree = false
+					continue
+				}
+				for k := range x {
+					free[pred.FreeVars[i]] = k
+				}
+			}
+			if !okFree {
+				bad, undec = "-", "the bounds captured by the predicate cannot be evaluated"
+				break
+			}
+			for ps := int64(1); ps <= 5 && bad == ""; ps++ {
+				for pe := ps; pe <= 5 && bad == ""; pe++ {
+					leaf := func(v ssa.Value) (int64, bool) {
+						if fr, ok := eng.LoadOfField(v); ok {
+							switch fr.Field {
+							case "PageStart":
+								return ps, true
+							case "PageEnd":
+								return pe, true
+							}
+						}
+						if u, ok := v.(*ssa.UnOp); ok && u.Op == token.MUL {
+							if k, ok := free[u.X]; ok {
+								return k, true
+							}
+						}
+						if k, ok := free[v]; ok {
+							return k, true
+						}
+						return 0, false
+					}
+					got := map[int64]bool{}
+					unknown := false
+					for _, r := range eng.Returns(pred) {
+						x, unk := eng.EvalAt(pred, leaf, r, r.Results[0])
+						if unk {
+							unknown = true
+						}
+						for k := range x {
+							got[k] = true
+						}
+					}
+					n++
+					want := int64(0)
+					if pe >= s && ps <= e {
+						want = 1
+					}
+					if unknown || len(got) != 1 {
+						undec = fmt.Sprintf("the predicate does not evaluate for a chunk on pages %d-%d and the range %d-%d (it no longer only compares the four numbers)", ps, pe, s, e)
+						bad = "-"
+					} else if !got[want] {
+						bad = fmt.Sprintf("a chunk on pages %d-%d and FilterByPageRange(%d, %d): selected=%v, the spans intersect=%v", ps, pe, s, e, got[1] && !got[0], want == 1)
+					}
+				}
+			}
+		}
+	}
+	if undec != "" {
+		c.Undec(R, name, fn.Pos(), undec)
+		return
+	}
+	c.Check(bad == "", R, name, fn.Pos(), fmt.Sprintf("predicate equals span intersection on %d orderings", n), "the page-range filter is not the overlap predicate: "+bad)
+}
